@@ -32,7 +32,8 @@ def explore(ctx):
                        'operand values: finite boundary alphabet in every position and relative rotation; lane arithmetic itself is the subject of C02/C11',
                        'parcpy/parSetZero: sizes {0..40,63,64,65,1000} x thread arguments {INT_MIN,-1,0,1,2,3,7,64,size,size+1}; real OpenMP runtime, one schedule per call (no schedule enumeration: chunks are disjoint by construction)']
     ovlcheck.explore(ctx, 'C17')
-    ctx.bounds['parcpy/parSetZero'] = 'size in {0..40,63,64,65,1000} x threads in {INT_MIN,-1,0,1,2,3,7,64,size,size+1}'
+    ctx.bounds['parcpy/parSetZero'] = 'size in {0..40,63,64,65,1000} x threads in {INT_MIN,-1,0,1,2,3,7,64,size,size+1} x {top level, nested}; dense sweep: every size 41..18432 and +-70 around mined constants and their doubles x threads {7,13}'
+    ctx.bounds['mined literals'] = ctx.lits()
     for name in ('c17_par_plain', 'c17_par_asan'):
         if name in ctx.bins:
-            ctx.run_step(name, ctx.bins[name], tag=name)
+            ctx.run_step(name, ctx.bins[name], ['--lits', ctx.lits_arg()], tag=name)
